@@ -104,15 +104,55 @@ def propagate_module_constants(tree: ast.Module) -> ast.Module:
                 stores[g] = stores.get(g, 0) + 2
     env: dict[str, ast.expr] = {}
     keep = []
+    # names imported as numerical constants (`from numpy import pi as π`) count as constants in constant expressions
+    for s_ in tree.body:
+        if isinstance(s_, ast.ImportFrom) and s_.module in ("numpy", "math"):
+            for a_ in s_.names:
+                if a_.name in ("pi", "tau", "nan", "inf", "e"):
+                    env[a_.asname or a_.name] = ast.Name(id=a_.asname or a_.name, ctx=ast.Load())
+    # read-only uses of a literal container: operand of +, `in` test, iteration, constant subscript — never handed out or mutated
+    parent = {}
+    for p_ in ast.walk(tree):
+        for c_ in ast.iter_child_nodes(p_):
+            parent[id(c_)] = p_
+
+    def readonly_container(name):
+        for n in ast.walk(tree):
+            if isinstance(n, ast.Name) and n.id == name and isinstance(n.ctx, ast.Load):
+                p_ = parent.get(id(n))
+                if isinstance(p_, ast.BinOp) and isinstance(p_.op, ast.Add):
+                    continue
+                if isinstance(p_, ast.Compare) and n in p_.comparators and all(isinstance(o, (ast.In, ast.NotIn)) for o in p_.ops):
+                    continue
+                if isinstance(p_, (ast.For, ast.comprehension)) and p_.iter is n:
+                    continue
+                if isinstance(p_, ast.Subscript) and p_.value is n and isinstance(p_.ctx, ast.Load):
+                    continue
+                return False
+        return True
+
+    def literal_container(v):
+        # elements must be immutable themselves: a subscript load of an inner list/dict would hand out a shared mutable object,
+        # and substituting the literal would silently give every use its own copy
+        if isinstance(v, (ast.List, ast.Set)):
+            return all(_immutable_const(e, env) for e in v.elts)
+        if isinstance(v, ast.Dict):
+            return all(k is not None and _immutable_const(k, env) for k in v.keys) and all(_immutable_const(e, env) for e in v.values)
+        return False
+
     for s in tree.body:
         tgt = val = None
         if isinstance(s, ast.Assign) and len(s.targets) == 1 and isinstance(s.targets[0], ast.Name):
             tgt, val = s.targets[0].id, s.value
         elif isinstance(s, ast.AnnAssign) and isinstance(s.target, ast.Name) and s.value is not None:
             tgt, val = s.target.id, s.value
-        if tgt and (tgt.startswith("_") or tgt.isupper()) and not tgt.startswith("__") and stores.get(tgt) == 1 and _immutable_const(val, env):
+        if tgt and (tgt.startswith("_") or tgt.isupper()) and not tgt.startswith("__") and stores.get(tgt) == 1 \
+                and (_immutable_const(val, env) or (literal_container(val) and readonly_container(tgt))):
             env[tgt] = _Subst(env).visit(copy.deepcopy(val))
             continue
+        if tgt and not tgt.startswith("__") and stores.get(tgt) == 1 and _immutable_const(val, env) and tgt not in env:
+            # a public constant (π = float(np.pi)) stays where it is but may occur in the private constants built from it
+            env[tgt] = ast.Name(id=tgt, ctx=ast.Load())
         keep.append(s)
     if not env:
         return tree
@@ -121,7 +161,59 @@ def propagate_module_constants(tree: ast.Module) -> ast.Module:
     return _Subst(env).visit(tree)
 
 
+_NEG = {ast.Eq: ast.NotEq, ast.NotEq: ast.Eq, ast.Is: ast.IsNot, ast.IsNot: ast.Is, ast.In: ast.NotIn, ast.NotIn: ast.In}
+
+
+def _negate(e):
+    """exact negation with the `not` pushed inwards (De Morgan; ==/!=, is/is not, in/not in flipped; order comparisons keep
+    an explicit `not` because `not a < b` differs from `a >= b` for NaN)"""
+    if isinstance(e, ast.UnaryOp) and isinstance(e.op, ast.Not):
+        return e.operand
+    if isinstance(e, ast.BoolOp):
+        return ast.copy_location(ast.BoolOp(op=ast.And() if isinstance(e.op, ast.Or) else ast.Or(), values=[_negate(v) for v in e.values]), e)
+    if isinstance(e, ast.Compare) and len(e.ops) == 1 and type(e.ops[0]) in _NEG:
+        return ast.copy_location(ast.Compare(left=e.left, ops=[_NEG[type(e.ops[0])]()], comparators=e.comparators), e)
+    return ast.copy_location(ast.UnaryOp(op=ast.Not(), operand=e), e)
+
+
+def _is_not(e):
+    return isinstance(e, ast.UnaryOp) and isinstance(e.op, ast.Not)
+
+
 class _Spell(ast.NodeTransformer):
+    def visit_UnaryOp(self, n):
+        self.generic_visit(n)
+        if isinstance(n.op, ast.Not) and isinstance(n.operand, (ast.BoolOp, ast.UnaryOp)) and (isinstance(n.operand, ast.BoolOp) or _is_not(n.operand)):
+            return _negate(n.operand)
+        return n
+
+    def visit_Subscript(self, n):
+        self.generic_visit(n)
+        # a[np.nonzero(mask)] is a[mask] (load and store) when mask is a comparison, i.e. a boolean array of a's shape
+        sl = n.slice
+        if isinstance(sl, ast.Call) and _dotted(sl.func) in ("np.nonzero", "numpy.nonzero") and len(sl.args) == 1 and isinstance(sl.args[0], ast.Compare):
+            n.slice = sl.args[0]
+        return n
+
+    def visit_IfExp(self, n):
+        self.generic_visit(n)
+        if _is_not(n.test):
+            n = ast.copy_location(ast.IfExp(test=n.test.operand, body=n.orelse, orelse=n.body), n)
+        # `Y if x else x` is `x and Y`, `x if x else Y` is `x or Y` (x a plain name: evaluated once either way)
+        if isinstance(n.test, ast.Name):
+            if isinstance(n.orelse, ast.Name) and n.orelse.id == n.test.id:
+                return ast.copy_location(ast.BoolOp(op=ast.And(), values=[n.test, n.body]), n)
+            if isinstance(n.body, ast.Name) and n.body.id == n.test.id:
+                return ast.copy_location(ast.BoolOp(op=ast.Or(), values=[n.test, n.orelse]), n)
+        return n
+
+    def visit_If(self, n):
+        self.generic_visit(n)
+        # `if not C: X else: Y`  ->  `if C: Y else: X`   (a real else branch only; elif chains keep their shape)
+        if _is_not(n.test) and n.orelse and not (len(n.orelse) == 1 and isinstance(n.orelse[0], ast.If)) and not (len(n.body) == 1 and isinstance(n.body[0], ast.If)):
+            n.test, n.body, n.orelse = n.test.operand, n.orelse, n.body
+        return n
+
     def visit_Attribute(self, n):
         self.generic_visit(n)
         d = _dotted(n)
@@ -163,6 +255,13 @@ class _Spell(ast.NodeTransformer):
                 return ast.copy_location(ast.Subscript(value=n.args[0], slice=ast.Tuple(elts=[ast.Constant(value=Ellipsis), n.args[1]], ctx=ast.Load()), ctx=ast.Load()), n)
             if name == "take" and len(n.args) == 2 and (not n.keywords or (set(kw) == {"axis"} and isinstance(kw["axis"], ast.Constant) and kw["axis"].value == 0)):
                 return ast.copy_location(ast.Subscript(value=n.args[0], slice=n.args[1], ctx=ast.Load()), n)
+            if name == "concatenate" and len(n.args) == 1 and not n.keywords and isinstance(n.args[0], (ast.Tuple, ast.List)) \
+                    and any(isinstance(e, ast.List) and len(e.elts) == 1 for e in n.args[0].elts) \
+                    and all((isinstance(e, ast.List) and len(e.elts) == 1) or isinstance(e, (ast.Name, ast.Attribute)) for e in n.args[0].elts):
+                # np.concatenate((a, [b])) is np.r_[a, b] for a 1-d array a and a scalar b
+                elts = [e.elts[0] if isinstance(e, ast.List) else e for e in n.args[0].elts]
+                return ast.copy_location(ast.Subscript(value=ast.Attribute(value=ast.Name(id="np", ctx=ast.Load()), attr="r_", ctx=ast.Load()),
+                                                       slice=ast.Tuple(elts=elts, ctx=ast.Load()), ctx=ast.Load()), n)
             if name in ("hstack", "concatenate") and len(n.args) == 1 and not n.keywords and isinstance(n.args[0], (ast.Tuple, ast.List)) and name == "hstack":
                 return ast.copy_location(ast.Subscript(value=ast.Attribute(value=ast.Name(id="np", ctx=ast.Load()), attr="r_", ctx=ast.Load()),
                                                        slice=ast.Tuple(elts=list(n.args[0].elts), ctx=ast.Load()), ctx=ast.Load()), n)
@@ -280,10 +379,15 @@ def _for_form(block):
             if st is None or ast.dump(st) != ast.dump(sent):
                 continue
             # the iterator: previous statement `it = iter(X)` (or any expression), not used elsewhere in the loop body
-            if i == 0:
+            j = i - 1
+            while j >= 0 and not any(isinstance(n, ast.Name) and n.id == itname for n in ast.walk(block[j])):
+                j -= 1
+            if j < 0:
                 continue
-            p = block[i - 1]
+            p = block[j]
             if not (isinstance(p, ast.Assign) and len(p.targets) == 1 and isinstance(p.targets[0], ast.Name) and p.targets[0].id == itname):
+                continue
+            if any(isinstance(x, (ast.For, ast.While, ast.If, ast.Try, ast.With)) for x in block[j + 1:i]):
                 continue
             uses = sum(1 for x in s.body for n in ast.walk(x) if isinstance(n, ast.Name) and n.id == itname)
             later = sum(1 for x in block[i + 1:] for n in ast.walk(x) if isinstance(n, ast.Name) and n.id == itname)
@@ -301,12 +405,107 @@ def _for_form(block):
                 target = body[0].targets[0]
                 body = body[1:]
             loop = ast.For(target=target, iter=src, body=body or [ast.Pass()], orelse=[])
-            block[i - 1:i + 1] = [ast.copy_location(loop, s)]
+            block[i] = ast.copy_location(loop, s)
+            del block[j]
             changed = True
             break
     for s in block:
         for b in _blocks(s):
             _for_form(b)
+
+
+_FLIP_ORDER = {ast.Lt: ast.GtE, ast.LtE: ast.Gt, ast.Gt: ast.LtE, ast.GtE: ast.Lt}
+
+
+def _int_valued(e):
+    return (isinstance(e, ast.Call) and isinstance(e.func, ast.Name) and e.func.id == "len") or (isinstance(e, ast.Constant) and isinstance(e.value, int) and not isinstance(e.value, bool))
+
+
+def _negate_int(e):
+    """negation that also flips order comparisons when both sides are integers (len(...) / integer literal): no NaN possible"""
+    if isinstance(e, ast.Compare) and len(e.ops) == 1 and type(e.ops[0]) in _FLIP_ORDER and (_int_valued(e.left) or _int_valued(e.comparators[0])) \
+            and (_int_valued(e.left) or isinstance(e.left, ast.Name)) and (_int_valued(e.comparators[0]) or isinstance(e.comparators[0], ast.Name)):
+        return ast.copy_location(ast.Compare(left=e.left, ops=[_FLIP_ORDER[type(e.ops[0])]()], comparators=e.comparators), e)
+    return _negate(e)
+
+
+def _while_form(block):
+    """while True: if C: break; BODY   ->   while not C: BODY
+    while True: i -= 1; if i < 0: break; BODY   ->   while i > 0: i -= 1; BODY      (integer counter)"""
+    for s in block:
+        if isinstance(s, ast.While) and isinstance(s.test, ast.Constant) and s.test.value is True and not s.orelse and s.body:
+            b0 = s.body[0]
+            if isinstance(b0, ast.If) and not b0.orelse and len(b0.body) == 1 and isinstance(b0.body[0], ast.Break) and len(s.body) >= 2:
+                s.test = _negate_int(b0.test)
+                s.body = s.body[1:]
+            elif len(s.body) >= 3 and isinstance(b0, ast.AugAssign) and isinstance(b0.op, ast.Sub) and isinstance(b0.target, ast.Name) and isinstance(b0.value, ast.Constant) and b0.value.value == 1 \
+                    and isinstance(s.body[1], ast.If) and not s.body[1].orelse and len(s.body[1].body) == 1 and isinstance(s.body[1].body[0], ast.Break):
+                t = s.body[1].test
+                if isinstance(t, ast.Compare) and len(t.ops) == 1 and isinstance(t.ops[0], ast.Lt) and isinstance(t.left, ast.Name) and t.left.id == b0.target.id \
+                        and isinstance(t.comparators[0], ast.Constant) and t.comparators[0].value == 0:
+                    s.test = ast.copy_location(ast.Compare(left=ast.Name(id=b0.target.id, ctx=ast.Load()), ops=[ast.Gt()], comparators=[ast.Constant(value=0)]), t)
+                    s.body = [b0] + s.body[2:]
+        for b in _blocks(s):
+            _while_form(b)
+
+
+def _nest_continues(body):
+    """inside a loop body: `if C: A; continue` followed by REST  ->  `if C: A else: REST`  (and `if C: continue; REST` -> `if not C: REST`)"""
+    for i, s in enumerate(body):
+        if isinstance(s, ast.If) and not s.orelse and s.body and isinstance(s.body[-1], ast.Continue) and i + 1 < len(body):
+            rest = body[i + 1:]
+            _nest_continues(rest)
+            head = s.body[:-1]
+            if head:
+                new = ast.If(test=s.test, body=head, orelse=rest)
+            else:
+                new = ast.If(test=_negate(s.test), body=rest, orelse=[])
+            body[i:] = [ast.copy_location(new, s)]
+            return
+
+
+def _continue_form(block):
+    for s in block:
+        if isinstance(s, (ast.For, ast.While)):
+            _nest_continues(s.body)
+        for b in _blocks(s):
+            _continue_form(b)
+
+
+def _forelse_form(block):
+    """for x in X: … if C: break …  else: ELSE (always exits);  AFTER (always exits)
+         ->  for x in X: … if C: AFTER …;  ELSE          (AFTER is reachable only through the break)"""
+    from .normalize import always_exits
+
+    for i, s in enumerate(block):
+        if isinstance(s, ast.For) and s.orelse and always_exits(s.orelse) and i + 1 < len(block):
+            after = block[i + 1:]
+            if not always_exits(after) or len(after) > 4:
+                continue
+            breaks = []
+
+            def find(stmts, in_inner_loop=False):
+                for st in stmts:
+                    if isinstance(st, (ast.For, ast.While)):
+                        continue
+                    if isinstance(st, ast.Break):
+                        breaks.append((stmts, st))
+                    for b in _blocks(st):
+                        find(b)
+
+            find(s.body)
+            if len(breaks) != 1:
+                continue
+            holder, br = breaks[0]
+            k = [j for j, x in enumerate(holder) if x is br][0]
+            holder[k:k + 1] = [copy.deepcopy(x) for x in after]
+            else_body = s.orelse
+            s.orelse = []
+            block[i + 1:] = else_body
+            break
+    for s in block:
+        for b in _blocks(s):
+            _forelse_form(b)
 
 
 def _property_form(tree):
@@ -376,14 +575,68 @@ def _flatten_private_bases(tree: ast.Module):
         tree.body = [s for s in tree.body if s is not mix]
 
 
+def _class_alias(tree):
+    """cls = self.__class__ (bound once in a method, never rebound) -> uses replaced by self.__class__"""
+    for fn in ast.walk(tree):
+        if not isinstance(fn, ast.FunctionDef):
+            continue
+        cands = {}
+        stores = {}
+        for n in ast.walk(fn):
+            if isinstance(n, ast.Name) and isinstance(n.ctx, ast.Store):
+                stores[n.id] = stores.get(n.id, 0) + 1
+        for i, s in enumerate(fn.body):
+            if isinstance(s, ast.Assign) and len(s.targets) == 1 and isinstance(s.targets[0], ast.Name) and _dotted(s.value) == "self.__class__" and stores.get(s.targets[0].id) == 1 \
+                    and s.targets[0].id not in [a.arg for a in fn.args.args]:
+                cands[s.targets[0].id] = s
+        if not cands:
+            continue
+        fn.body = [s for s in fn.body if s not in cands.values()]
+
+        class _R(ast.NodeTransformer):
+            def visit_Name(self, n):
+                if n.id in cands and isinstance(n.ctx, ast.Load):
+                    return ast.copy_location(ast.Attribute(value=ast.Name(id="self", ctx=ast.Load()), attr="__class__", ctx=ast.Load()), n)
+                return n
+
+        fn.body = [_R().visit(s) for s in fn.body]
+        if not fn.body:
+            fn.body = [ast.Pass()]
+
+
+def _class_lookup_form(tree):
+    """self.__class__.NAME -> self.NAME for class methods, static methods and class-level attributes of the module's classes
+    (looked up on the class either way; an instance attribute of the same name cannot exist for methods)"""
+    names = set()
+    for cls in ast.walk(tree):
+        if isinstance(cls, ast.ClassDef):
+            for m in cls.body:
+                if isinstance(m, ast.FunctionDef) and any(_dotted(d) in ("classmethod", "staticmethod") for d in m.decorator_list):
+                    names.add(m.name)
+
+    class _R(ast.NodeTransformer):
+        def visit_Attribute(self, n):
+            self.generic_visit(n)
+            if n.attr in names and isinstance(n.value, ast.Attribute) and n.value.attr == "__class__" and isinstance(n.value.value, ast.Name) and n.value.value.id == "self":
+                return ast.copy_location(ast.Attribute(value=n.value.value, attr=n.attr, ctx=n.ctx), n)
+            return n
+
+    return _R().visit(tree)
+
+
 def prenormalize(tree: ast.Module) -> ast.Module:
     tree = propagate_module_constants(tree)
     tree = _Spell().visit(tree)
     _super_form(tree)
+    _class_alias(tree)
+    tree = _class_lookup_form(tree)
     for fn in ast.walk(tree):
         if isinstance(fn, (ast.FunctionDef, ast.AsyncFunctionDef)):
             _with_form(fn.body)
             _for_form(fn.body)
+            _while_form(fn.body)
+            _continue_form(fn.body)
+            _forelse_form(fn.body)
     _property_form(tree)
     _flatten_private_bases(tree)
     ast.fix_missing_locations(tree)
